@@ -65,11 +65,17 @@ def sortEnc (l : List Bytes) : List Bytes := l.foldr insertEnc []
 
 /-- body of `Attributes.Marshal`'s SET; `none` = `BytesOrPanic` panics (invalid OID) -/
 def attrsBody (a : Attrs) : Option Bytes :=
-  match a.contentType with
+  -- F30 repair: attributes without a content type (parsed ones may lack it) are encoded without that
+  -- attribute instead of making the builder panic on an absent object identifier
+  let ctElem : Option (List Bytes) :=
+    match a.contentType with
+    | none => some []
+    | some ct => if validOID ct then some [attrSeq oidContentType (oidOr ct)] else none
+  match ctElem with
   | none => none
-  | some ct =>
-    if !validOID ct || !(a.other.all fun x => validOID x.1) then none else
-    some (sortEnc ([attrSeq oidContentType (oidOr ct)] ++
+  | some ce =>
+    if !(a.other.all fun x => validOID x.1) then none else
+    some (sortEnc (ce ++
       (match a.time with | some t => [attrSeq oidSigningTime (addASN1 tUTC t)] | none => []) ++
       [attrSeq oidMessageDigest (addOctets a.md)] ++
       (a.other.map fun x => attrSeq x.1 x.2))).flatten
